@@ -7,6 +7,7 @@ import (
 	"os"
 	"os/exec"
 	"path/filepath"
+	"strings"
 	"time"
 )
 
@@ -50,19 +51,25 @@ func confirmHang(r *Run, caseJSON string) string {
 	in := filepath.Join(r.Work, "hang.peg")
 	os.WriteFile(in, c.Text, 0o644)
 	args = append(args, "-o", filepath.Join(r.Work, "hang.go"), in)
+	// memory is capped (4 GB of address space): a runaway allocation is reported like a hang
 	for i := 0; i < 2; i++ {
-		ctx, cancel := context.WithTimeout(context.Background(), 60*time.Second)
-		cmd := exec.CommandContext(ctx, filepath.Join(r.Work, "pigeon"), args...)
+		ctx, cancel := context.WithTimeout(context.Background(), 45*time.Second)
+		quoted := make([]string, len(args))
+		for j, a := range args {
+			quoted[j] = "'" + strings.ReplaceAll(a, "'", "'\\''") + "'"
+		}
+		cmd := exec.CommandContext(ctx, "bash", "-c", "ulimit -v 4000000; exec '"+filepath.Join(r.Work, "pigeon")+"' "+strings.Join(quoted, " "))
 		var se bytes.Buffer
 		cmd.Stderr = &se
 		cmd.Run()
 		timedOut := ctx.Err() != nil
 		cancel()
-		if !timedOut {
+		oom := strings.Contains(se.String(), "out of memory") || strings.Contains(se.String(), "cannot allocate memory")
+		if !timedOut && !oom {
 			return ""
 		}
 	}
-	return "the pigeon command did not terminate within 60 s (twice)"
+	return "the pigeon command did not terminate within 45 s or exhausted 4 GB of memory (twice)"
 }
 
 func init() {
